@@ -355,7 +355,7 @@ def punctuation_delete(tree, **params):
                                  'punctuation only\n' % tree.data['sid'])
     else:
         for terminal in removal:
-            tree = trees.delete_terminal(tree, terminal)
+            trees.delete_terminal(tree, terminal)
         for line in output:
             print(line)
     return tree
